@@ -885,7 +885,7 @@ def pattern_add8(context, tree, c0, c1):
     "reg",
     "ADDI32(reg, CONSTI32)",
     size=2,
-    condition=lambda t: t[1].value < 2048,
+    condition=lambda t: t[1].value in range(-2048, 2048),
 )
 @isa.pattern(
     "reg",
@@ -904,7 +904,7 @@ def pattern_add_i32_reg_const(context, tree, c0):
     "reg",
     "ADDI32(CONSTI32, reg)",
     size=2,
-    condition=lambda t: t.children[0].value < 2048,
+    condition=lambda t: t.children[0].value in range(-2048, 2048),
 )
 @isa.pattern(
     "reg",
@@ -1161,7 +1161,7 @@ def pattern_and_i(context, tree, c0, c1):
     "reg",
     "ANDI32(reg, CONSTI32)",
     size=2,
-    condition=lambda t: t.children[1].value < 2048,
+    condition=lambda t: t.children[1].value in range(-2048, 2048),
 )
 def pattern_and_i32(context, tree, c0):
     d = context.new_reg(RiscvRegister)
@@ -1205,7 +1205,7 @@ def pattern_or_i32(context, tree, c0, c1):
     "reg",
     "ORI32(reg, CONSTI32)",
     size=2,
-    condition=lambda t: t.children[1].value < 2048,
+    condition=lambda t: t.children[1].value in range(-2048, 2048),
 )
 def pattern_or_i32_reg_const(context, tree, c0):
     d = context.new_reg(RiscvRegister)
@@ -1218,7 +1218,7 @@ def pattern_or_i32_reg_const(context, tree, c0):
     "reg",
     "ORI32(CONSTI32, reg)",
     size=2,
-    condition=lambda t: t.children[0].value < 2048,
+    condition=lambda t: t.children[0].value in range(-2048, 2048),
 )
 def pattern_or_i32_const_reg(context, tree, c0):
     d = context.new_reg(RiscvRegister)
@@ -1365,7 +1365,7 @@ def pattern_xor_i32(context, tree, c0, c1):
     "reg",
     "XORI32(reg, CONSTI32)",
     size=2,
-    condition=lambda t: t.children[1].value < 2048,
+    condition=lambda t: t.children[1].value in range(-2048, 2048),
 )
 def pattern_xor_i32_reg_const(context, tree, c0):
     d = context.new_reg(RiscvRegister)
@@ -1378,7 +1378,7 @@ def pattern_xor_i32_reg_const(context, tree, c0):
     "reg",
     "XORI32(CONSTI32, reg)",
     size=2,
-    condition=lambda t: t.children[0].value < 2048,
+    condition=lambda t: t.children[0].value in range(-2048, 2048),
 )
 def pattern_xor_i32_const_reg(context, tree, c0):
     d = context.new_reg(RiscvRegister)
